@@ -39,7 +39,7 @@ def _dump(g, names):
             "types_ok": all(type(x) is int for r in adj for x in r)}
 def impl(c):
     from chipfiring import CFGraph
-    n = c["n"]; names = sorted(common.NAME_STYLES[c["style"]](n)); ext = names + ["zz_unknown%d" % i for i in range(4)]
+    n = c["n"]; names = sorted(common.NAME_STYLES[c["style"]](n)); ext = common.FreshNames(names + ["zz_unknown%d" % i for i in range(4)])
     g = CFGraph(set(names), []); out = []
     for op in c["ops"]:
         res = "ok"; extra = None
